@@ -680,6 +680,13 @@ def gen_twin(rng, N, CK):
     box_pin = ["Box::pin", "std::boxed::Box::pin", "::std::boxed::Box::pin", "Box::pin", "std::boxed::Box::<_>::pin"][(int(N) * 2654435761 >> 7) % 5] if kind == "boxed" and not ret_form and not err_form else "Box::pin"
     # (twins with ret/err keep the short spelling: if a changed macro stopped recognising a long
     # one, those twins would stop compiling and the check could only report a build failure)
+    # a third of the boxed twins without receiver whose parameters are plain identifiers use the
+    # inner-async-fn shape
+    inner_fn = (kind == "boxed" and not recv and all(p.decl_name and p.pat in (p.decl_name, "mut " + p.decl_name) for p in params)
+                and (int(N) * 40503 >> 3) % 3 == 0)
+    if inner_fn:
+        box_pin = "Box::pin"
+        bfeats.add("boxed_inner_async_fn")
     if kind == "boxed":
         bfeats.add("boxpin:" + box_pin)
 
@@ -691,6 +698,14 @@ def gen_twin(rng, N, CK):
             return f"{allow}{a}    {vis}fn {name}{gtxt}({ptxt}) -> {ret_ty} {{\n        {body_txt}\n    }}\n"
         if kind in ("async_fn", "async_trait"):
             return f"{allow}{a}    {vis}async fn {name}{gtxt}({ptxt}) -> {ret_ty} {{\n        {body_txt}\n    }}\n"
+        if kind == "boxed" and inner_fn:
+            # the shape older async-trait versions expanded to (and a common hand-written way to
+            # get an object-safe async method): an inner `async fn` called inside Box::pin
+            s = " + Send" if send else ""
+            iargs = ", ".join(p.decl_name for p in params)
+            return (f"{allow}{a}    {vis}fn {name}{gtxt}({ptxt}) -> Pin<Box<dyn Future<Output = {ret_ty}>{s} + 'a>> {{\n"
+                    f"        {allow}        async fn {name}_inner{gtxt}({ptxt}) -> {ret_ty} {{\n        {body_txt}\n        }}\n"
+                    f"        {pre_txt}\n        Box::pin({name}_inner({iargs}))\n    }}\n")
         if kind == "boxed":
             s = " + Send" if send else ""
             return (f"{allow}{a}    {vis}fn {name}{gtxt}({ptxt}) -> Pin<Box<dyn Future<Output = {ret_ty}>{s} + 'a>> {{\n"
